@@ -445,7 +445,8 @@ def check_cached_matrices_not_mutated(ctx: Check, tree: Tree) -> None:
         raise AnalysisError("no memoised matrix builder found for RelativisticKMatrix/NonRelativisticKMatrix (two functools.cache'd _create_matrices confirmed): how the matrices are cached cannot be read off")
     flow = AliasFlow(tree, sources)
     flow.fixpoint()
-    bad = [(fn, node, origin) for fn, node, origin in flow.mutations() if fn.qual not in sources]
+    # a memoised builder may write into the matrix it is building - not into the result of ANOTHER memoised builder
+    bad = [(fn, node, origin) for fn, node, origin in flow.mutations() if fn.qual not in sources or not origin.startswith(f"memoised {fn.qual}")]
     for fn, node, origin in bad:
         ctx.violation("R-CACHE", f"{fn.qual}::{unparse(node)[:60]}::mutates-cached-matrix", tree.loc(node),
                       f"{fn.qual}: `{unparse(node)[:60]}` writes into a matrix that aliases a memoised result ({origin.split(' -> ')[0]})",
